@@ -421,7 +421,7 @@ func (iv integerValue) ToString(b io.Writer, s px.FormatContext, g px.RDetect) {
 	var err error
 	switch f.FormatChar() {
 	case 'x', 'X', 'o', 'd':
-		_, err = fmt.Fprintf(b, f.OrigFormat(), int64(iv))
+		_, err = fmt.Fprintf(b, goFormat(f), int64(iv))
 	case 'p', 'b', 'B':
 		longVal := int64(iv)
 		intString := strconv.FormatInt(longVal, integerRadix(f.FormatChar()))
